@@ -121,6 +121,7 @@ package fiber
 // processFlashMessages: nothing to send => the response is not touched; otherwise the whole list is
 // encoded (cannot fail) and sent as ONE session-only cookie named fiber_flash whose value is the encoding.
 //@ func (*Redirect).processFlashMessages
+//@   props C12 C07
 //@   modifies heap(E_uint8), jarHas, jarVal, jarAttr, ckKey, ckVal, ckAttr, jcPath, jcExp, jcPooled
 //@   atcall (redirectionMsgs).MarshalMsg: encodes-whole-list: z == r.messages && len(b) == 0
 //@   atcall (*DefaultCtx).Cookie: only-when-messages: len(r.messages) > 0
